@@ -15,20 +15,58 @@ ALL_INVARIANTS = ["ReadExact", "CloseNoTrunc", "NoSpuriousEOF", "Decodable", "Ac
 
 def run_scenarios(scenarios, workdir, name, timeout=1500, race=False):
     """Execute scenarios on the real code; returns the path of the ndjson trace."""
-    inp = os.path.join(workdir, name + ".in.ndjson")
+    for sc in scenarios:
+        # TCP fragmentation sleeps while holding the underlay's send mutex: such runs need the wall clock
+        if sc.get("transport") == "tcp" and any('"maxSleepMs": ' in (sc.get(k) or "") and '"maxSleepMs": 0' not in (sc.get(k) or "")
+                                                and '"enable": true' in (sc.get(k) or "") for k in ("cpat", "spat")):
+            sc["realtime"] = True
+            sc["limit"] = min(sc.get("limit", 60), 90)
     out = os.path.join(workdir, name + ".trace.ndjson")
-    with open(inp, "w") as f:
-        for sc in scenarios:
-            f.write(json.dumps(sc, separators=(",", ":")) + "\n")
-    rc, log, wall = vlib.go_test("./sessrun/", "TestScenarios$", env={"VERIF_IN": inp, "VERIF_OUT": out},
-                                 timeout=timeout, race=race)
+    open(out, "w").close()
+    todo = list(scenarios)
+    hung = []
+    rc, log = 0, ""
+    part = 0
+    while todo:
+        part += 1
+        inp = os.path.join(workdir, "%s.in%d.ndjson" % (name, part))
+        pout = os.path.join(workdir, "%s.part%d.ndjson" % (name, part))
+        with open(inp, "w") as f:
+            for sc in todo:
+                f.write(json.dumps(sc, separators=(",", ":")) + "\n")
+        rc, log, wall = vlib.go_test("./sessrun/", "TestScenarios$", env={"VERIF_IN": inp, "VERIF_OUT": pout},
+                                     timeout=timeout, race=race)
+        done = 0
+        hung_id = None
+        with open(out, "a") as fo:
+            if os.path.exists(pout):
+                for sid, start, lines in split_traces(pout):
+                    if lines and '"ev":"Hung"' in lines[-1]:
+                        hung_id = json.loads(lines[-1])["err"]
+                        lines = lines[:-1]
+                    if sid is not None:
+                        fo.writelines(lines)
+                        done += 1
+        m = re.search(r"^HUNG (.*)$", log, re.M)
+        if rc != 0 and m:
+            # virtual time could not advance (mutex wait behind back-pressure): abandon that scenario, go on
+            hid = m.group(1).strip()
+            hung.append(hid)
+            idx = next((i for i, sc in enumerate(todo) if sc["id"] == hid), None)
+            if idx is None:
+                break
+            todo = todo[idx + 1:]
+            rc = 0
+            continue
+        if rc != 0:
+            break
+        todo = []
     begun = 0
-    if os.path.exists(out):
-        with open(out) as f:
-            for line in f:
-                if '"ev":"Begin"' in line:
-                    begun += 1
-    return out, rc, log, begun
+    with open(out) as f:
+        for line in f:
+            if '"ev":"Begin"' in line:
+                begun += 1
+    return out, rc, log, begun + len(hung), hung
 
 
 def split_traces(path):
@@ -80,7 +118,11 @@ def check_traces(ctx, scenarios, workdir, name, invariants, pid_of_inv=None, rac
                  signature_of=None):
     """Run + validate; report violations of `invariants` against ctx. Returns the list of scenario ids run."""
     byid = {sc["id"]: sc for sc in scenarios}
-    trace, rc, log, begun = run_scenarios(scenarios, workdir, name, timeout=timeout, race=race)
+    trace, rc, log, begun, hung = run_scenarios(scenarios, workdir, name, timeout=timeout, race=race)
+    if hung:
+        ctx.notes.append("scenarios abandoned because virtual time could not advance (not judged): %s" % hung)
+        if len(hung) > max(2, len(scenarios) // 20):
+            raise Inconclusive("too many scenarios could not run in virtual time: %s" % hung[:10])
     if rc != 0 or begun != len(scenarios):
         # a leaked goroutine (bubble deadlock) or a crash in the real code while running scenario #begun+1
         culprit = scenarios[begun]["id"] if begun < len(scenarios) else "?"
